@@ -16,10 +16,24 @@ import (
 // ---- concurrent driver (run in a binary built with -race) ----
 
 type concInput struct {
-	kind string // decode chained integ header encode
-	data []byte
-	file string // dump text for encode
-	arch string
+	kind  string // decode chained integ header encode encfault
+	data  []byte
+	file  string // dump text for encode
+	arch  string
+	fault int // encfault: the writer accepts this many bytes, then fails
+}
+
+// faultWriter accepts `left` bytes in total, then reports an error (a short write first if a call straddles the limit).
+type faultWriter struct{ left int }
+
+func (w *faultWriter) Write(p []byte) (int, error) {
+	if len(p) <= w.left {
+		w.left -= len(p)
+		return len(p), nil
+	}
+	n := w.left
+	w.left = 0
+	return n, fmt.Errorf("write fault")
 }
 
 func concPool(r *rng, n int, accum bool) []concInput {
@@ -62,6 +76,13 @@ func concPool(r *rng, n int, accum bool) []concInput {
 		ft := hostedFileTypes()[i%len(hostedFileTypes())]
 		pool = append(pool, concInput{kind: "encode", file: randFileText(r, ft, fileKnobs{maxGroup: 4, fieldPct: 25}), arch: fmt.Sprint(i % 2)})
 	}
+	// Encode into writers that fail: in the header, at several offsets inside the record bytes, in the
+	// trailing CRC — an error path that releases or keeps shared state differently shows up in the
+	// calls that overlap with it or follow it
+	for i, off := range []int{0, 5, 14, 15, 20, 33, 60, 100000} {
+		ft := hostedFileTypes()[(i*3)%len(hostedFileTypes())]
+		pool = append(pool, concInput{kind: "encfault", file: randFileText(r, ft, fileKnobs{maxGroup: 4, fieldPct: 25}), arch: fmt.Sprint(i % 2), fault: off})
+	}
 	return pool
 }
 
@@ -101,6 +122,28 @@ func concCall(in concInput) (out string) {
 			return "err"
 		}
 		return fmt.Sprintf("ok %x", buf.Bytes())
+	case "encfault":
+		f, err := buildFile(in.file)
+		if err != nil {
+			return "bad-file"
+		}
+		order := binary.ByteOrder(binary.LittleEndian)
+		if in.arch == "1" {
+			order = binary.BigEndian
+		}
+		// first how long the output is, then the same Encode into a writer that fails `fault` bytes in
+		// (100000: two bytes before the end, i.e. in the trailing CRC)
+		var whole bytes.Buffer
+		if err := fit.Encode(&whole, f, order); err != nil {
+			return "err"
+		}
+		off := in.fault
+		if off >= whole.Len() {
+			off = whole.Len() - 1
+		}
+		f2, _ := buildFile(in.file)
+		err = fit.Encode(&faultWriter{left: off}, f2, order)
+		return fmt.Sprintf("fault@%d %s", off, tag(err))
 	}
 	return "?"
 }
